@@ -85,6 +85,17 @@ def atoms : Formula → List String
   | .mul a b | .div a b | .sub a b | .add a b => a.atoms ++ b.atoms
   | .sqrt a | .pow a _ => a.atoms
 
+/-- does the input occur as a direct operand of multiply / divide / subtract / add?  Those are
+    the calls in which `unyt_array.__array_ufunc__` (and `Unit.__mul__`) refuse a unit with an
+    offset (°C, °F: `InvalidUnitOperation`); `power` and `sqrt` are *not* refused — the unit rule
+    `u ** p` drops the offset silently. -/
+def xInArith : Formula → Bool
+  | .atom _ => false
+  | .lit _ => false
+  | .mul a b | .div a b | .sub a b | .add a b =>
+    a == .atom "x" || b == .atom "x" || a.xInArith || b.xInArith
+  | .sqrt a | .pow a _ => a.xInArith
+
 /-- dimension inference: `cd` gives the dimension of each atom; `sub`/`add` need equal
     dimensions (what `unyt_array.__array_ufunc__` enforces up to scale) -/
 def dimOf (cd : String → Option Dim) : Formula → Option Dim
@@ -389,24 +400,36 @@ def bound (consts params : List (String × K)) (a : String) : Bool :=
   a == "x" || params.any (fun p => "p." ++ p.1 == a) || consts.any (fun p => "c." ++ p.1 == a)
 
 /-- the reading, in `target`, of the quantity equivalent to the reading `xv` in `u`.
+    `supplied` are the keyword arguments of the call (`mu=`, `gamma=`); they reach `_convert`
+    only on the `via` route, where a keyword `_convert` does not accept is a `TypeError`
+    and a missing one takes the default of the signature.
     The chain works on the data in the input's own unit and carries the unit along; because
     the final step converts to `target`, this is the formula evaluated on the SI magnitude
     followed by the ordinary conversion from the coherent SI unit of the new dimension.
-    Offset units (°C, °F) cannot enter the chain: unyt refuses to multiply them. -/
-def convertValue (pre : Prefixes K) (t : Lut K) (reg : List EquivRec)
-    (consts params : List (String × K)) (m : Mode) (u : UnitV K) (xv : K) (target : UnitV K)
+    An input unit with an offset (°C, °F) is refused by the first multiply/divide/subtract/add
+    that touches it; a chain that only ever raises the input to a power (`effective_temperature`,
+    temperature → flux) is *not* refused and works on the bare reading, offset dropped. -/
+def convertValue [OfBits K] (pre : Prefixes K) (t : Lut K) (reg : List EquivRec)
+    (consts supplied : List (String × K)) (m : Mode) (u : UnitV K) (xv : K) (target : UnitV K)
     (equivalence : Option String) : Except Err K :=
   match inUnitsRoute reg m u.dim target.dim equivalence with
   | .error e => .error e
   | .ok .plain => toValue pre t u xv target
   | .ok (.via f) =>
-    if !(f.atoms.all (bound consts params)) then .error .Other
-    else if u.offset != 0 then .error .InvalidUnitOperation
+    let accepted : List (String × Nat) :=
+      match equivalence.bind (findEquiv reg) with
+      | some e => e.params
+      | none => []
+    if !(supplied.all (fun p => accepted.any (fun q => q.1 == p.1))) then .error .TypeError
     else
-      let si := xv * u.scale
-      let y := f.eval (mkEnv consts params si)
-      let mid : UnitV K := ⟨UExpr.one, 1, 0, target.dim, true⟩
-      toValue pre t mid y target
+      let params := supplied ++ accepted.map (fun q => (q.1, (OfBits.ofBits q.2 : K)))
+      if !(f.atoms.all (bound consts params)) then .error .Other
+      else if u.offset != 0 && f.xInArith then .error .InvalidUnitOperation
+      else
+        let si := xv * u.scale
+        let y := f.eval (mkEnv consts params si)
+        let mid : UnitV K := ⟨UExpr.one, 1, 0, target.dim, true⟩
+        toValue pre t mid y target
 
 end numbers
 
@@ -460,6 +483,13 @@ def Branch.dimOk (cd : String → Option Dim) (b : Branch) : Bool :=
   match b.formula with
   | some f => f.dimOf (fun a => if a = "x" then some b.src else cd a) == some b.dst
   | none => false
+
+/-- every chain of the equivalence refuses an input unit with an offset -/
+def EquivRec.refusesOffsetInput (e : EquivRec) : Bool :=
+  (orderedPairs e.dims).all (fun p =>
+    match e.modeFormula .copy p.1 p.2, e.modeFormula .inplace p.1 p.2 with
+    | some f, some g => f.xInArith && g.xInArith
+    | _, _ => false)
 
 /-- dimension of an atom: constants from the regenerated table, keyword parameters are numbers -/
 def atomDim (consts : List (String × Nat × Dim)) (a : String) : Option Dim :=
